@@ -249,6 +249,14 @@ func c15Scenarios() []c15Scenario {
 		{"errors", "three required options missing", parse(rd, "add")},
 		{"errors", "command required", parse(rd, "--aaa=1", "--bbb=2", "--ccc=3")},
 		{"errors", "unknown command", parse(rd, "--aaa=1", "--bbb=2", "--ccc=3", "zzz")},
+		{"errors", "unknown command equally near to two commands", parse(rd, "--aaa=1", "--bbb=2", "--ccc=3", "aid")},
+		{"errors", "unknown command equally near to two commands, one of which has an alias", func() string {
+			dd := c15Decl()
+			dd.Top.SubOptional = false
+			b := dd.BuildTags()
+			_, err := b.Parser.ParseArgs([]string{"aid"})
+			return errText(err)
+		}},
 		{"errors", "invalid choice and unknown flag", func() string {
 			b := d.BuildTags()
 			_, err := b.Parser.ParseArgs([]string{"--nope", "--nada"})
